@@ -470,6 +470,11 @@ func runC07(c *Cfg) {
 			// fallbacks are gated too and held as long as possible: a failing item sitting in its fallback keeps nobody else from being processed
 			cs.Gated, cs.GateFB, cs.Policy, cs.SleepUs, cs.Family = true, true, "hold-fallbacks", 0, "scripts-fallbacks-held"
 		}
+		if i%19 == 4 && cs.Prelude == nil && cc >= 1 {
+			pn := 4*cc + 3 + rg.IntN(8)
+			cs.Prelude = &Prelude{N: pn, Items: make([]ItemScript, pn), Cancelled: true}
+			cs.Family = "scripts-after-earlier-cancelled-run"
+		}
 		if i%7 == 3 && cs.Prelude == nil {
 			// the same node object was run before on a larger batch and the caller kept that run's result list
 			pn := n + 1 + rg.IntN(8)
